@@ -7,6 +7,12 @@ Part 1  cirq.Collector.collect_async (cirq/work/collector.py) and PauliSumCollec
 Part 2  cirq_google StreamManager (_manage_stream, _manage_execution, ResponseDemux, submit, cancel) on a
         private asyncio loop against a model Quantum Engine stream service; everything there is a finite
         selector: solver-selected bounded exhaustive exploration, labelled as such.
+Part 2b cancellation accounting on the same driver: the scripted server logs every CancelQuantumJob RPC (oracles/stream_cancel.py)
+        and on EVERY explored schedule "the caller of submit() sees CancelledError <=> exactly one cancel RPC arrived for its job"
+        is asserted.  The stream.cancelpoint.* obligations add one cancellation (cancel of a submission / StreamManager.stop())
+        that is not tied to the quiescent points: it fires `cancel_delay` event-loop iterations after the `cancel_after`-th driver
+        action; both are unbounded SOLVER INTEGERS partitioned by the driver's comparisons, so the cancellation lands in the same
+        loop turn as a stream break / error reply / result / submit / stop() and at every later turn of the client's reaction.
 """
 from __future__ import annotations
 
@@ -366,7 +372,10 @@ INITS = ('fresh', 'program_exists', 'job_done', 'job_done_jae', 'job_running')
 FAULT_KINDS = ('break_retry', 'break_fatal', 'open_fail', 'reject', 'cancel0', 'cancel1', 'stop')
 
 
-def stream_scenario(cx, nsub, init, faults, wrong=None, class_select=True):
+RACERS = ('cancel0', 'cancel1', 'stop')
+
+
+def stream_scenario(cx, nsub, init, faults, wrong=None, class_select=True, race=None, stop_window='subscribed'):
     """one schedule of: submissions, service processing steps, job completions and the planned faults.
 
     init   : 'fresh' | 'program_exists' (program created outside the client) | 'job_done' (program and job exist,
@@ -374,11 +383,18 @@ def stream_scenario(cx, nsub, init, faults, wrong=None, class_select=True):
              reply: JOB_ALREADY_EXISTS instead of PROGRAM_ALREADY_EXISTS) | 'job_running' (program and job exist, job
              still running)   -- applies to submission 0
     faults : tuple of fault kinds injected in this order at solver-selected points of the schedule
+    race   : None | 'cancel0' | 'cancel1' | 'stop': ONE additional cancellation that is NOT restricted to the quiescent points of
+             the schedule.  It is fired `cancel_delay` event-loop iterations after the `cancel_after`-th driver action (submit /
+             service step / job completion / fault), i.e. possibly in the same loop turn as that action and anywhere in the
+             client's reaction to it.  Both numbers are unbounded SOLVER INTEGERS (z3 Int): the explorer partitions them by
+             the comparisons below, a delay that outlasts the client's reaction lands on the quiescent point, an action index
+             beyond the end of the schedule means "never".
     """
     import google.api_core.exceptions as gx
     from cirq_google.cloud import quantum
     from cirq_google.engine import stream_manager as sm
     from oracles import async_drivers as D
+    from oracles import stream_cancel as C
 
     Code = quantum.StreamError.Code
     RETRY = [gx.ServiceUnavailable, gx.InternalServerError, gx.Unknown]
@@ -394,11 +410,55 @@ def stream_scenario(cx, nsub, init, faults, wrong=None, class_select=True):
     pre_done = [jobsn[0]] if init in ('job_done', 'job_done_jae') else []
     pre_running = [jobsn[0]] if init == 'job_running' else []
     H = {'events': [], 'tasks': [None] * nsub, 'cancelled': set(), 'stopped': set(), 'fatal': {}, 'rejected': {}, 'inflight_at_fatal': None}
+    H.update({'cancel_rpcs': [], 'never_started': set(), 'stop_midway': set(), 'race': None})
+    if race is not None:
+        # "cancel after the k-th action, `delay` loop iterations later": genuinely numeric, hence solver variables
+        race_after = cx.int('cancel_after', 1, None)
+        race_delay = cx.int('cancel_delay', 0, None)
+
+    async def race_window(loop, step, acted, submitted):
+        """the racing cancellation: called right after driver action number `step`, BEFORE the loop gets to run"""
+        import asyncio
+
+        d = 0
+        while True:
+            if race == 'stop':
+                targets = [i for i in range(submitted) if not H['tasks'][i].done()]
+            else:
+                i = int(race[6:])
+                targets = [i] if i < submitted and not H['tasks'][i].done() else []
+            if not targets:
+                return  # nothing (left) in flight that this cancellation could hit
+            quiescent = not loop._ready  # every later delay is this same point
+            if quiescent or bool(race_delay == d):
+                H['events'].append(f'{race}@+{d}' + ('(quiescent)' if quiescent else ''))
+                H['race'] = {'kind': race, 'after': acted, 'delay': d, 'quiescent': quiescent, 'targets': targets}
+                if race == 'stop':
+                    # classification only (never used for an expected value): does every in-flight execution coroutine hold
+                    # a pending subscription right now?  If not (coroutine not started yet, or between a delivered reply /
+                    # stream break and its next request) stop() cannot reach it: that window is the recorded finding
+                    # stream.finding.stop_strands_unsubscribed_submission and is kept out of the healthy family.
+                    subs = getattr(getattr(H['mgr'], '_response_demux', None), '_subscribers', {})
+                    unreachable = len(targets) - sum(1 for f in subs.values() if not f.done())
+                    cx.assume((unreachable > 0) == (stop_window == 'unsubscribed'))
+                    H['stopped'].update(targets)
+                    if not quiescent:
+                        H['stop_midway'].update(targets)
+                    H['mgr'].stop()
+                else:
+                    H['cancelled'].add(targets[0])
+                    if d == 0 and acted == ('submit', targets[0]):
+                        H['never_started'].add(targets[0])  # the execution coroutine has not run a single step
+                    H['tasks'][targets[0]].cancel()
+                return
+            await asyncio.sleep(0)  # exactly one iteration of the event loop
+            d += 1
 
     async def driver(loop):
-        eng = D.ModelEngine(quantum, programs=pre_prog, done_jobs=pre_done, running_jobs=pre_running, both_exist_code='job' if init == 'job_done_jae' else 'program')
+        eng = C.make_engine(D, quantum, H, programs=pre_prog, done_jobs=pre_done, running_jobs=pre_running, both_exist_code='job' if init == 'job_done_jae' else 'program')
         mgr, ex = D.make_manager(loop, eng)
         H['eng'], H['mgr'] = eng, mgr
+        race_open = race is not None
         pending_faults = list(faults)
         submitted = 0
         step = 0
@@ -476,6 +536,9 @@ def stream_scenario(cx, nsub, init, faults, wrong=None, class_select=True):
                     i = int(f[6:])
                     H['cancelled'].add(i)
                     H['tasks'][i].cancel()
+            if race_open and bool(race_after == step):
+                race_open = False
+                await race_window(loop, step, (a[0], a[1]) if a[0] in ('submit', 'fault') else (a[0], None), submitted)
         await D.settle(loop)
         H['unresolved_end'] = [i for i in range(submitted) if not H['tasks'][i].done()]
         H['submitted'] = submitted
@@ -539,7 +602,10 @@ def check_stream_history(cx, H, nsub, jobsn, progs, init, hang, loop_errors, wro
             outcome = ('result', t.result())
         if i in H['cancelled']:
             exp = 'cancelled'
-        elif i in H['stopped']:
+        elif i in H['stopped'] and (i not in H['stop_midway'] or outcome == ('cancelled',)):
+            # stop() at a quiescent point always cancels the caller; a stop() that lands in the middle of the client's reaction
+            # to a reply / stream break may find the submission already settled (reply delivered): then the ordinary outcome
+            # below is the only other acceptable one
             exp = 'stopped'
         elif i in H.get('fatal_for', {}):
             exp = 'fatal'
@@ -553,13 +619,30 @@ def check_stream_history(cx, H, nsub, jobsn, progs, init, hang, loop_errors, wro
         if exp == 'cancelled':
             # cancellation cancels the remote job (exactly one cancel RPC, for this job) and the caller sees it
             K.add('cancel-reaches-caller', outcome == ('cancelled',), where)
-            K.add('cancel-cancels-remote-job', ncancel == 1, f'{ncancel} cancel RPCs for {job}; {where}')
+            if i not in H['never_started']:  # (cancelled before its coroutine ran a single step: separate law below)
+                K.add('cancel-cancels-remote-job', ncancel == 1, f'{ncancel} cancel RPCs for {job}; {where}')
         elif exp == 'stopped':
             # StreamManager.stop() while the job is in flight: the caller sees a cancellation
             K.add('stop-cancels-callers-in-flight', outcome == ('cancelled',), where)
             K.add('at-most-one-cancel-rpc', ncancel <= 1, f'{ncancel} cancel RPCs for {job}; {where}')
         else:
             K.add('no-cancel-rpc-without-cancel', ncancel == 0, f'{ncancel} cancel RPCs for {job}; {where}')
+        # cancellation accounting, on EVERY schedule: the caller sees CancelledError <=> exactly one CancelQuantumJob RPC
+        # was received for its job (no remote job keeps running that nobody waits for, no job is cancelled behind the back
+        # of a caller that got a result / an error)
+        rpcs = [c for c in H['cancel_rpcs'] if c['job'] == job]
+        caller_cancelled = outcome == ('cancelled',)
+        if wrong == 'cancel_rpc':
+            caller_cancelled = not caller_cancelled
+        acct = f'{len(rpcs)} cancel RPCs for {job} {[(c["after_events"], c["job_state"]) for c in rpcs]}; {where}'
+        if i in H['never_started']:
+            # cancelled in the loop turn of its own submit(): the execution coroutine never ran, so nothing may have been sent
+            sent = [r for r in eng.requests if r[3] == job] + [1 for st in eng.streams for r in st.inbox + st.lost if _request_job(r) == job]
+            K.add('cancelled-before-first-step-sends-nothing', len(rpcs) == (0 if wrong != 'cancel_rpc' else 1) and created == 0 and not sent, acct)
+        elif caller_cancelled:
+            K.add('caller-cancelled=>exactly-one-cancel-rpc', len(rpcs) == 1, acct)
+        else:
+            K.add('caller-not-cancelled=>no-cancel-rpc', len(rpcs) == 0, acct)
         if exp == 'fatal':
             K.add('non-retryable-break-surfaces', outcome[0] == 'raised' and outcome[1] is H['fatal_for'][i], where)
         elif exp == 'rejected':
@@ -674,7 +757,71 @@ def obligations(tier):
                 kind='bounded-exhaustive (finite selectors only)',
             )
         )
+    # ---- Part 2b: cancellation at EVERY point of the schedule (not only the quiescent ones) -----------------
+    for k, (nsub, init, seq, racer) in enumerate(race_plans(quick)):
+
+        def rbody(cx, wrong=None, nsub=nsub, init=init, seq=seq, racer=racer):
+            stream_scenario(cx, nsub, init, seq, wrong, class_select=False, race=racer)
+
+        obs.append(
+            Obligation(
+                f'stream.cancelpoint.sub{nsub}.{init}.' + ('+'.join(seq) if seq else 'nofault') + f'.{racer}',
+                rbody,
+                twin=lambda cx, rbody=rbody: rbody(cx, wrong='cancel_rpc'),
+                points=[{'cancel_after': 1, 'cancel_delay': 1}, {'cancel_after': 2, 'cancel_delay': 0}, {'cancel_after': 3, 'cancel_delay': 2, 'choose:act2': 1}, {'cancel_after': 50, 'cancel_delay': 0}],
+                opts={'weight': (4 ** len(seq)) * (6 if nsub == 2 else 1) * 6, 'max_paths': 400000, 'depth_limit': 2000},
+                desc=f'StreamManager cancellation accounting: {nsub} submission(s), service initially {init}, faults {seq or "none"} at every quiescent point of every schedule, '
+                f'plus {racer} fired cancel_delay loop iterations after the cancel_after-th action (both unbounded z3 integers): caller cancelled <=> exactly one CancelQuantumJob RPC for its job',
+                kind='symbolic integers (position and delay of the cancellation) over bounded-exhaustive schedules',
+            )
+        )
+    # the window the healthy family leaves out (see race_window): recorded finding, asserted with the SAME laws
+    FIND = [(1, 'fresh', ()), (1, 'program_exists', ()), (1, 'fresh', ('break_retry',)), (2, 'fresh', ())]
+
+    def fbody(cx, wrong=None):
+        nsub, init, seq = FIND[cx.choose('plan', len(FIND))]
+        stream_scenario(cx, nsub, init, seq, wrong, class_select=False, race='stop', stop_window='unsubscribed')
+
+    obs.append(
+        Obligation(
+            'stream.finding.stop_strands_unsubscribed_submission',
+            fbody,
+            twin=lambda cx: fbody(cx, wrong='cancel_rpc'),
+            points=[{'choose:plan': 0, 'cancel_after': 1, 'cancel_delay': 0}, {'choose:plan': 1, 'cancel_after': 2, 'cancel_delay': 1}, {'choose:plan': 2, 'cancel_after': 2, 'cancel_delay': 1}],
+            opts={'weight': 50, 'max_paths': 400000, 'depth_limit': 2000},
+            desc='StreamManager.stop() fired (cancel_delay loop iterations after the cancel_after-th action, z3 integers) while an in-flight execution coroutine holds no pending '
+            'subscription (submit() not started yet / between a delivered retryable reply or stream break and its next request): the same laws as the healthy family; '
+            'on the recorded defect the coroutine re-subscribes in the fresh ResponseDemux and writes to the abandoned request queue, so the caller never resolves and no cancel RPC is sent',
+            kind='symbolic integers (position and delay of stop()) over bounded-exhaustive schedules',
+        )
+    )
     return obs
+
+
+def race_plans(quick):
+    """(submissions, initial service state, faults injected at quiescent points, racing cancellation)"""
+    plans = []
+    one = [(), ('break_retry',), ('open_fail',), ('reject',), ('break_fatal',), ('stop',), ('cancel0',), ('break_retry', 'break_retry'), ('open_fail', 'break_retry')]
+    if not quick:
+        one += [('break_retry', 'reject'), ('break_retry', 'break_fatal'), ('break_retry', 'stop'), ('break_retry', 'break_retry', 'break_retry')]
+    for init in INITS:
+        for seq in one:
+            for racer in ('cancel0', 'stop'):
+                if 'stop' in seq and racer == 'stop':
+                    continue  # a second stop() finds nothing in flight
+                plans.append((1, init, seq, racer))
+    two = [(), ('break_retry',), ('reject',), ('stop',)]
+    for init in INITS:
+        for seq in two + ([] if quick else [('break_fatal',), ('open_fail',), ('cancel1',)]):
+            if quick and seq and init not in ('fresh', 'program_exists'):
+                continue
+            for racer in RACERS:
+                if 'stop' in seq and racer == 'stop':
+                    continue
+                plans.append((2, init, seq, racer))
+    if not quick:
+        plans += [(2, init, ('break_retry', 'break_retry'), racer) for init in ('fresh', 'program_exists') for racer in RACERS]
+    return plans
 
 
 LEVEL = (
@@ -685,7 +832,11 @@ LEVEL = (
     '"per-term sample totals" over ALL integer values; completion order, batching of completions, job-tree shapes and failing calls are finite selectors, all exhausted. '
     'Part 2 (cirq_google StreamManager / ResponseDemux): there is nothing numeric to make symbolic; the solver-backed explorer only SELECTS schedules and fault sequences from finite menus, '
     'i.e. this part is bounded exhaustive exploration (every interleaving of submissions, service steps, job completions, stream breaks before/after processing, failing opens, '
-    'injected non-retryable codes and cancellations within the bounds), each schedule executed through the real client code against a model Quantum Engine stream service.'
+    'injected non-retryable codes and cancellations within the bounds), each schedule executed through the real client code against a model Quantum Engine stream service. '
+    'Part 2b (cancellation accounting): the model service logs every CancelQuantumJob RPC and every schedule asserts "caller sees CancelledError <=> exactly one cancel RPC for its job" '
+    '(none for a submission that returned a result or raised); in the stream.cancelpoint.* obligations the position of one extra cancellation (task cancel or StreamManager.stop()) is given by two '
+    'unbounded z3 integers - index of the driver action it follows and number of event-loop iterations it is delayed - which the solver partitions into: same loop turn as the action, every later turn '
+    'of the client reaction, the quiescent point (all larger delays), never (index beyond the schedule).'
 )
 
 
@@ -704,7 +855,22 @@ def main(tier, seed=0, replay=None, only=None, procs=None):
         )
         + '; fault kinds: retryable stream break, non-retryable stream break, failing stream open, injected non-retryable StreamError code, cancel of either submission, StreamManager.stop() with jobs in flight (combined with at most one other fault); '
         'initial service state for submission 0: fresh / program exists / program+finished job (reply PROGRAM_ALREADY_EXISTS or JOB_ALREADY_EXISTS) / program+running job',
+        'part2b_cancellation': (
+            'symbolic: cancel_after >= 1 (index of the driver action the cancellation follows) and cancel_delay >= 0 (event-loop iterations between that action and the cancellation), unbounded z3 integers; '
+            'enumerated: racing cancellation in {cancel of submission 0, cancel of submission 1, StreamManager.stop()}, at most ONE racing cancellation per schedule, on top of '
+            + (
+                '1 submission x 5 initial states x quiescent-point faults from {none, break_retry, open_fail, reject, break_fatal, stop, cancel0, break_retry+break_retry, open_fail+break_retry}; '
+                '2 submissions x {none: 5 initial states; break_retry, reject, stop: fresh / program exists}'
+                if quick
+                else '1 submission x 5 initial states x quiescent-point faults from {none, break_retry, open_fail, reject, break_fatal, stop, cancel0, break_retry+break_retry, open_fail+break_retry, break_retry+reject, '
+                'break_retry+break_fatal, break_retry+stop, 3x break_retry}; 2 submissions x 5 initial states x {none, break_retry, reject, stop, break_fatal, open_fail, cancel1} and break_retry+break_retry from fresh / program exists'
+            )
+            + '; exception classes / error codes rotated, not selected. Granularity of a cancellation point: one iteration of the asyncio loop (what a cancel() / stop() arriving from another thread through '
+            'call_soon_threadsafe can distinguish). stop() is split by whether every in-flight execution coroutine holds a pending subscription at that instant (read from ResponseDemux._subscribers, classification only): '
+            'the healthy family takes the subscribed windows, stream.finding.stop_strands_unsubscribed_submission the others. A cancel in the very turn of its own submit() (coroutine never ran) must send NOTHING (no request, no cancel RPC)'
+        ),
         'outside': [
+            'two racing cancellations in one schedule; a cancellation that interrupts the CancelQuantumJob RPC itself after more than one loop turn (the model RPC completes in one turn and is logged on arrival); cancellation points inside one loop iteration (between two callbacks of the same turn)',
             'real threads / AsyncioExecutor background thread / duet<->asyncio bridging (replaced by an in-loop executor; thread-safety of ResponseDemux across threads is NOT covered)',
             'real gRPC transport: the model keeps the request-iterator reader of a dead stream alive until it reads the None sentinel (as grpc.aio / the repo fake do)',
             'more than 4 jobs / 2 concurrent submissions / 3 faults; exponential backoff; EngineClient / EngineJob / ProcessorSampler layers above StreamManager',
